@@ -9,8 +9,9 @@ import (
 // ByLines is a sequential reader for a named file, reading lines not including
 // '\n', and it avoids allocations by yielding the underlying buffer slices.
 type ByLines struct {
-	f *os.File
-	b *bufio.Reader
+	f   *os.File
+	b   *bufio.Reader
+	pos int64 // file offset just past the last line returned by Read
 }
 
 // OpenByLines opens the named file fn, and returns a ByLines reader.
@@ -33,6 +34,7 @@ func (b *ByLines) Close() error {
 func (b *ByLines) Read() ([]byte, error) {
 	for { // skip over empties
 		bytes, err := b.b.ReadSlice('\n')
+		b.pos += int64(len(bytes))
 		if err != nil {
 			return nil, err
 		}
@@ -43,6 +45,10 @@ func (b *ByLines) Read() ([]byte, error) {
 	}
 }
 
+// Offset returns the file offset just past the last line returned by Read,
+// including its '\n' and any empty lines skipped before it.
+func (b *ByLines) Offset() int64 { return b.pos }
+
 // Rewind resets the internal state of b, new read will start at the 0 file
 // offset.
 func (b *ByLines) Rewind() error {
@@ -50,5 +56,6 @@ func (b *ByLines) Rewind() error {
 		return err
 	}
 	b.b.Reset(b.f)
+	b.pos = 0
 	return nil
 }
